@@ -7,7 +7,7 @@
    NULL), the matched row for UPDATE (absent column: unchanged, onupdate kinds instead of default kinds). *)
 From Coq Require Import List ZArith Bool.
 Import ListNotations.
-From SAV.sql Require Import Defaults DefaultsProofs DefaultsManyProofs DefaultsWitness.
+From SAV.sql Require Import Defaults DefaultsProofs DefaultsManyProofs DefaultsMultiProofs DefaultsWitness.
 Open Scope Z_scope.
 
 (* default_iff_omitted, single execution: a supplied key (None included) is stored as given, an omitted
@@ -130,7 +130,100 @@ Proof. intros cols p0 ps g t H. destruct (take_group_same cols p0 ps g t H) as [
   split; [intros x Hx; exact (same_keys_agree cols p0 (fst x) (A x Hx))|exact B]. Qed.
 Print Assumptions c13_orm_groups_homogeneous.
 
+(* ---- insert(t).values([row0; row1; ...]) : crud._extend_values_for_multiparams ---- *)
+(* the per-row presence rule, for EVERY row and column: a column of the VALUES list that the row has is stored
+   as the row gives it (an explicit None included, also in rows after the first); omitted, its default fires
+   again (callables: their next call); a column outside the list row 0 decided is not in the statement *)
+Theorem c13_multi_values_rule : forall cval ctxval sqlval srvval cols p0 rest cs i row c,
+  distinct_keys cols = true -> distinct_fns cols = true ->
+  nth_error (p0 :: rest) i = Some row -> In c cols ->
+  exists srow, nth_error (fst (multi_rows cval ctxval sqlval srvval p0 cols (p0 :: rest) cs)) i = Some srow /\
+    (in_values0 p0 c = true -> forall v, get (ckey c) row = Some v -> get (ckey c) srow = Some v) /\
+    (get (ckey c) row = None ->
+       match cdef c with
+       | Scalar z => get (ckey c) srow = Some (Some z)
+       | SqlExpr e => get (ckey c) srow = Some (Some (sqlval e))
+       | Callable f => get (ckey c) srow = Some (Some (cval f (count f cs + omitting c (firstn i (p0 :: rest)))%nat))
+       | _ => True
+       end) /\
+    (in_values0 p0 c = false -> get (ckey c) srow = Some (absent_val srvval c)).
+Proof. exact multi_values_rule. Qed.
+Print Assumptions c13_multi_values_rule.
+(* callables fire once per row that omits the column, not more *)
+Theorem c13_multi_values_calls : forall cval ctxval sqlval srvval cols p0 rest cs c f,
+  distinct_fns cols = true -> In c cols -> cdef c = Callable f ->
+  count f (snd (multi_rows cval ctxval sqlval srvval p0 cols (p0 :: rest) cs))
+  = (count f cs + omitting c (p0 :: rest))%nat.
+Proof. exact multi_values_calls. Qed.
+Print Assumptions c13_multi_values_calls.
+(* the CompileError: exactly for a row lacking a listed column without Python / SQL default *)
+Theorem c13_multi_values_compile_error : forall p0 i cols row,
+  multi_check_row p0 i cols row = None <->
+  forall c, In c cols -> in_values0 p0 c = true -> has (ckey c) row = false ->
+    match cdef c with NoDefault | ServerSide _ => False | _ => True end.
+Proof. exact multi_check_row_spec. Qed.
+Print Assumptions c13_multi_values_compile_error.
+(* row 0 decides the column list: a later row's value for a server-default / no-default column is dropped *)
+Theorem c13_multi_values_first_row_refuted : exists cols p0 row c v rows cs',
+  distinct_keys cols = true /\ distinct_fns cols = true /\ In c cols /\ get (ckey c) row = Some v /\
+  multi_exec w_cval w_ctxval w_sqlval w_srvval cols [p0; row] [] = inl (rows, cs') /\
+  match nth_error rows 1 with Some srow => get (ckey c) srow <> Some v | None => False end.
+Proof. exists w_noctx, w_m0, w_m1, {| ckey := 5; cdef := ServerSide 5 |}, (Some 7).
+  eexists. eexists. vm_compute. repeat split; auto 10. discriminate. Qed.
+Print Assumptions c13_multi_values_first_row_refuted.
+
+(* ---- Update.ordered_values(): the columns named first, then EVERY other column of the table ---- *)
+Theorem c13_ordered_cols_complete : forall order cols c, In c (ordered_cols order cols) <-> In c cols.
+Proof. exact ordered_cols_In. Qed.
+Print Assumptions c13_ordered_cols_complete.
+(* ... so onupdate fires for every column outside the list *)
+Theorem c13_ordered_values_rule : forall cval ctxval sqlval srvval order cols p old cs,
+  distinct_keys (ordered_cols order cols) = true -> distinct_fns (ordered_cols order cols) = true ->
+  exists row cs',
+    core_exec cval ctxval sqlval srvval (ordered_cols order cols) [p] [old] cs = Ok ([row], cs') /\
+    forall c, In c cols ->
+      (forall v, get (ckey c) p = Some v -> get (ckey c) row = Some v) /\
+      (get (ckey c) p = None ->
+         exists pr v, get (ckey c) row = Some v /\
+                      default_ok cval ctxval sqlval srvval old c p pr (fn_count c cs) v /\
+                      (forall c' v', In c' cols -> get (ckey c') p = Some v' -> get (ckey c') pr = Some v')).
+Proof. exact ordered_values_rule. Qed.
+Print Assumptions c13_ordered_values_rule.
+
+(* ---- a pre-executed primary key default (implicit_returning=False): "if val is not None" - every fetched
+   value, 0 included, becomes the key ---- *)
+Theorem c13_preexecuted_pk_default_kept : forall cval ctxval sqlval srvval cols p old cs z c,
+  distinct_keys cols = true -> distinct_fns cols = true -> In c cols -> ckey c = O ->
+  exists row cs',
+    core_exec cval ctxval sqlval srvval cols [(O, preexec_param None (Some z)) :: p] [old] cs = Ok ([row], cs') /\
+    get O row = Some (Some z).
+Proof. exact preexec_pk_kept. Qed.
+Print Assumptions c13_preexecuted_pk_default_kept.
+
 (* ---- non-vacuity ---- *)
+Example c13_ex_multi_values :
+  multi_exec w_cval w_ctxval w_sqlval w_srvval w_noctx [w_m0; w_m1; w_m2] []
+  = inl ([ [(0%nat, Some 5); (1%nat, Some 101); (2%nat, Some 3000); (4%nat, Some 3004); (5%nat, Some 4005); (6%nat, None)];
+           [(0%nat, Some 6); (1%nat, None); (2%nat, Some 3001); (4%nat, Some 3004); (5%nat, Some 4005); (6%nat, None)];
+           [(0%nat, Some 7); (1%nat, Some 101); (2%nat, Some 3002); (4%nat, Some 3004); (5%nat, Some 4005); (6%nat, None)] ],
+         [(2%nat, 3%nat)]).
+Proof. vm_compute. reflexivity. Qed.
+Example c13_ex_multi_values_error :
+  multi_exec w_cval w_ctxval w_sqlval w_srvval w_noctx [w_m1; w_m0] [] = inr (EMultiDefault 1 5).
+Proof. vm_compute. reflexivity. Qed.
+Example c13_ex_ordered :
+  distinct_keys (ordered_cols w_order w_cols) = true /\ distinct_fns (ordered_cols w_order w_cols) = true /\
+  map ckey (ordered_cols w_order w_cols) = [6; 1; 0; 2; 3; 4; 5]%nat /\
+  w_exec (ordered_cols w_order w_cols) [w_ord_p] [Some w_old] []
+  = Ok ([ [(6%nat, Some 9); (1%nat, None); (0%nat, Some 1); (2%nat, Some 3000); (3%nat, Some 200001);
+           (4%nat, Some 3004); (5%nat, Some 50)] ], [(2%nat, 1%nat); (3%nat, 1%nat)]).
+Proof. vm_compute. repeat split; reflexivity. Qed.
+Example c13_ex_preexec_zero :
+  w_exec w_cols [(0%nat, preexec_param None (Some 0)) :: [(1%nat, Some 8)]] [None] []
+  = Ok ([ [(0%nat, Some 0); (1%nat, Some 8); (2%nat, Some 3000); (3%nat, Some 200000); (4%nat, Some 3004);
+           (5%nat, Some 4005); (6%nat, None)] ], [(2%nat, 1%nat); (3%nat, 1%nat)]).
+Proof. vm_compute. reflexivity. Qed.
+
 Example c13_ex_wf : distinct_keys w_cols = true /\ distinct_fns w_cols = true.
 Proof. vm_compute. auto. Qed.
 (* two homogeneous rows: a supplied (9, then None - kept), everything else by default *)
